@@ -14,6 +14,8 @@ def run(rep, args):
     n = 200 if rep.tier == 'quick' else 3000
     (rel.c13 if PID == 'C13' else rel.c15)(rep, n)
     pyprops.report_regressions(rep, pr)
-    rep.bounded['rule'] = 'for seeded sanitised modules and one non-templated, enum-free class X per module: pybind output with ignore=[X] equals output of the module with X deleted; for namespaced X also the MATLAB toolbox (gateway ids masked). distinct = distinct (text, X) pairs'
-    rep.explanation = 'ignore == delete is a relational property of two runs; decided on the bounded scope for both generators (MATLAB only for namespaced classes: global-scope ignore is a listed finding).'
+    rep.bounded['rule'] = 'for seeded sanitised modules and one class X per module (preferring clashing simple names and template instantiations): pybind output with ignore=[X] equals output of the module with X deleted, and so does the MATLAB toolbox (gateway ids masked). distinct = distinct (text, X) pairs'
+    rep.explanation = ('ignore == delete is a relational property of two runs; decided on the bounded scope for both generators (classes at global scope and in '
+                       'namespaces, plain and template instantiations). Proved for all inputs: an ignored forward-declared class binds nothing (pybind) and an '
+                       'ignored class gets no collector, clean-up block or RTTI entry in the MEX preamble.')
     rep.assumptions += ['bounded relational check only: the ownership / frame proof of the instantiator is not built (instantiate_type mutates an aliased deep copy)']
